@@ -189,3 +189,10 @@ Example C02_fixpoint_calm_nonvacuous :
   forallb (gcalm ex_ctx "" ex_opts) [GPara [Str "a"; Str " "; Str "b"]; GPara [Link "http://x" "t" Regular [Str "y"]]] = true /\
   gcalm ex_ctx "" (Opts "") (GPara [Str "see "; Link "a.md" "" Regular [Str "x"]]) = false.
 Proof. exact ex_calm. Qed.
+(* ... and by a note whose list items have no text: a quote, a rule, a code block, a list with more blocks
+   after it, each written right after the item marker (ReparseFacts.ex2_written_text) *)
+Example C02_fixpoint_headless_nonvacuous :
+  reparse_safe ex_opts ex2_written = true /\ settled ex_ctx (key_parent ex_key) ex_opts ex2_written = true /\
+  rr ex_opts ex2_written = ex2_blocks /\
+  project (key_parent ex_key) (tmap (norm_node ex_ctx) (spec_tree ex_key (rr ex_opts ex2_written))) = ex2_written.
+Proof. split; [apply ex2_in_class | split; [apply ex2_in_class | split; [exact ex2_rr | exact ex2_fixpoint]]]. Qed.
